@@ -393,9 +393,17 @@ func record(seed int64, traces int, out string) {
 			}
 		}
 	}
+	// concurrency stage (see concurrent.go): appended to the same trace
+	crounds := traces / 3
+	if crounds < 30 {
+		crounds = 30
+	}
+	_, cv := recordConcurrent(w, r, crounds)
 	must(w.Close())
 	vtrace.Stat("events", w.N)
-	vtrace.Stat("traces", traces)
+	vtrace.Stat("traces", traces+crounds)
+	vtrace.Stat("concurrent_rounds", crounds)
+	vtrace.Stat("concurrent_violating_rounds", cv)
 }
 
 func main() {
